@@ -1,3 +1,4 @@
+import PycfModel.Basic.Text
 /-
 IAM glob matching (C08).  Core-only: imported by the driver.
 
@@ -41,11 +42,7 @@ def gmatch : List Tok → List Char → Bool
 def gmatchFold (f : Char → Char) (p : List Char) (s : List Char) : Bool :=
   gmatch (tok (p.map f)) (s.map f)
 
-/-- ASCII lower-casing. -/
-def lowerAscii (c : Char) : Char :=
-  if 'A' ≤ c ∧ c ≤ 'Z' then Char.ofNat (c.toNat + 32) else c
-
-def gmatchCI (p s : List Char) : Bool := gmatchFold lowerAscii p s
+def gmatchCI (p s : List Char) : Bool := gmatchFold Text.lowerChar p s
 def gmatchCS (p s : List Char) : Bool := gmatch (tok p) s
 
 /-- Declarative language of a token list. -/
